@@ -22,20 +22,20 @@ import (
 )
 
 type Target struct {
-	File     string            `json:"file"`
-	Func     string            `json:"func"`     // function or method name
-	Recv     string            `json:"recv"`     // receiver type name (optional)
-	Name     string            `json:"name"`     // Coq name
-	Env      map[string]string `json:"env"`      // types of free selector paths / idents
-	Opaque   []string          `json:"opaque"`   // identifiers that denote opaque structs (selectors on them are free variables)
-	Fragment []string          `json:"fragment"` // if set: translate only statements assigning these variables (in order), result = last one
-	Params   []string          `json:"params"`   // explicit order of free parameters (optional)
-	Skip     []string          `json:"skip"`     // call prefixes whose expression statements are ignored (log., metrics.)
-	GuardOf  string            `json:"guard_of"` // translate the conjunction of the if-conditions enclosing the first assignment to this variable
-	CondOfErr string           `json:"cond_of_err"` // translate the condition of the if-statement whose body returns an error containing this text
-	CallArg  *CallArgSpec      `json:"call_arg"`    // translate one argument of the n-th call to a callee
-	Calls    map[string]string `json:"calls"`       // aliases for calls to functions translated elsewhere: Go callee -> Coq name (bool result)
-	ReturnOf string            `json:"return_of"` // fragment mode alternative: translate the n-th result expression of the LAST return statement: "0"
+	File      string            `json:"file"`
+	Func      string            `json:"func"`        // function or method name
+	Recv      string            `json:"recv"`        // receiver type name (optional)
+	Name      string            `json:"name"`        // Coq name
+	Env       map[string]string `json:"env"`         // types of free selector paths / idents
+	Opaque    []string          `json:"opaque"`      // identifiers that denote opaque structs (selectors on them are free variables)
+	Fragment  []string          `json:"fragment"`    // if set: translate only statements assigning these variables (in order), result = last one
+	Params    []string          `json:"params"`      // explicit order of free parameters (optional)
+	Skip      []string          `json:"skip"`        // call prefixes whose expression statements are ignored (log., metrics.)
+	GuardOf   string            `json:"guard_of"`    // translate the conjunction of the if-conditions enclosing the first assignment to this variable
+	CondOfErr string            `json:"cond_of_err"` // translate the condition of the if-statement whose body returns an error containing this text
+	CallArg   *CallArgSpec      `json:"call_arg"`    // translate one argument of the n-th call to a callee
+	Calls     map[string]string `json:"calls"`       // aliases for calls to functions translated elsewhere: Go callee -> Coq name (bool result)
+	ReturnOf  string            `json:"return_of"`   // fragment mode alternative: translate the n-th result expression of the LAST return statement: "0"
 }
 
 type CallArgSpec struct {
@@ -51,6 +51,7 @@ type Spec struct {
 	Consts  []string `json:"consts"` // files whose const blocks are imported
 	Targets []Target `json:"targets"`
 	// schema extraction (C14): cbor_gen.go files and hand-written codec wrappers (type -> file)
+	Tables   []TableSpec       `json:"tables"`
 	Schemas  []string          `json:"schemas"`
 	Wrappers map[string]string `json:"wrappers"`
 }
@@ -884,6 +885,10 @@ func main() {
 		panic(err)
 	}
 	for _, sp := range specs {
+		if len(sp.Tables) > 0 {
+			genTables(repo, sp.Consts, sp.Tables, outdir, sp.Out)
+			continue
+		}
 		if len(sp.Schemas) > 0 {
 			genSchemas(repo, sp.Schemas, sp.Wrappers, outdir, sp.Out)
 			continue
